@@ -1,8 +1,12 @@
 /-
 C19 — Pushgateway requests encode job and grouping key losslessly.
 
-M = `Model.Gateway` (the client: `_escape_grouping_key`, `quote_plus`, URL-safe base64, `_use_gateway`);
-S = `Spec.Gateway` (the Pushgateway's reading of a path).  Every theorem quantifies over all strings / byte
+M = `Model.Gateway` (the client: `_escape_grouping_key`, `quote` / `quote_plus`, URL-safe base64, `_use_gateway`);
+S = `Spec.Gateway` (the Pushgateway's reading of a path) with TWO readings of `+` in a plain segment:
+`decodePathGo` (path unescaping, `+` literal — what the Pushgateway does) and `decodePath` (form decoding,
+`+` → space).  The lossless theorems are proved for BOTH.  The Go-decoder theorems depend on the extracted flag
+`spaceAsPlus = false` (the plain branch is `quote(v, safe='')`): with `quote_plus` a space is written `+`, which
+the Pushgateway reads as a plus — `quote_plus_space_read_as_plus_by_go` is the kernel-checked witness.  Every theorem quantifies over all strings / byte
 strings / label lists; nothing is bounded.
 
 Hypothesis used throughout: label NAMES are legacy label names `[a-zA-Z_][a-zA-Z0-9_]*` (`LegacyNames`, the
@@ -21,7 +25,7 @@ import PromVerif.Lemmas.Gateway
 namespace PromVerif.Props.C19
 open PromVerif.Py PromVerif.Model.Gateway PromVerif.Spec.Gateway
 open PromVerif.Lemmas PromVerif.Lemmas.GatewaySort
-open PromVerif.Generated.Gateway (extractOk jobLit sortsGroupingKey)
+open PromVerif.Generated.Gateway (extractOk jobLit sortsGroupingKey spaceAsPlus)
 
 /-- the extractor found every site of the gateway functions in the shape it understands -/
 theorem extract_ok : extractOk = true := by decide
@@ -40,26 +44,51 @@ theorem b64_alphabet_no_slash (bs : List UInt8) : ∀ c ∈ b64encode bs, c ≠ 
 theorem unquote_quote_plus (s : Str) : unquotePlus (quotePlus s) = some s :=
   Quote.unquotePlus_quotePlus s
 
-/-- `/` is not in the safe set, so it never appears in `quote_plus` output -/
-theorem quote_plus_no_slash (s : Str) : '/' ∉ quotePlus s :=
-  Quote.quotePlusBytes_no_slash _
+/-- **`quote(s, safe='')` is read back by both decoders**: path unescaping (`+` literal) and form decoding -/
+theorem unquote_quote (s : Str) : unquote (quote s) = some s ∧ unquotePlus (quote s) = some s :=
+  ⟨Quote.unquoteWith_quoteWith false false (fun h => h) s, Quote.unquoteWith_quoteWith false true (fun _ => rfl) s⟩
+
+/-- `/` is not in the safe set, so it never appears in the output of either encoder -/
+theorem quote_plus_no_slash (s : Str) : '/' ∉ quotePlus s ∧ '/' ∉ quote s :=
+  ⟨Quote.quoteBytes_no_slash _ _, Quote.quoteBytes_no_slash _ _⟩
+
+/-- the encoder in the source is `quote(v, safe='')`: a space is written `%20`, never `+` -/
+theorem encoder_is_quote : spaceAsPlus = false := by decide
 
 /-! ### one pair -/
 
 /-- neither component of an escaped pair contains `/` -/
 theorem segment_has_no_slash (k v : Str) (hk : isLegacyLabelName k = true) :
     '/' ∉ (escapeGroupingKey k v).1 ∧ '/' ∉ (escapeGroupingKey k v).2 :=
-  Gateway.escape_no_slash k v (Gateway.legacy_name_facts hk).1
+  Gateway.escape_no_slash _ k v (Gateway.legacy_name_facts hk).1
 
 /-- neither component is empty (an empty segment would be cleaned out of the path): the empty value is `=` -/
 theorem segment_nonempty (k v : Str) (hk : isLegacyLabelName k = true) :
     (escapeGroupingKey k v).1 ≠ [] ∧ (escapeGroupingKey k v).2 ≠ [] :=
-  Gateway.escape_ne_nil k v (Gateway.legacy_name_facts hk).2.2
+  Gateway.escape_ne_nil _ k v (Gateway.legacy_name_facts hk).2.2
 
-/-- the Pushgateway reads an escaped pair back as the original pair: empty value, value with `/`, any other -/
+/-- the Pushgateway (path unescaping) reads an escaped pair back as the original pair: empty value, value with
+`/`, any other.  Depends on `spaceAsPlus = false`. -/
+theorem pair_decodes_go (k v : Str) (hk : isLegacyLabelName k = true) :
+    decodePairWith false (escapeGroupingKey k v).1 (escapeGroupingKey k v).2 = some (k, v) :=
+  Gateway.decodePair_escape spaceAsPlus false (by decide) k v
+    (Gateway.legacy_name_facts hk).2.1 (Gateway.legacy_name_facts hk).2.2
+
+/-- the same under form decoding (holds for either encoder) -/
 theorem pair_decodes (k v : Str) (hk : isLegacyLabelName k = true) :
-    decodePair (escapeGroupingKey k v).1 (escapeGroupingKey k v).2 = some (k, v) :=
-  Gateway.decodePair_escape k v (Gateway.legacy_name_facts hk).2.1 (Gateway.legacy_name_facts hk).2.2
+    decodePairWith true (escapeGroupingKey k v).1 (escapeGroupingKey k v).2 = some (k, v) :=
+  Gateway.decodePair_escape spaceAsPlus true (fun _ => rfl) k v
+    (Gateway.legacy_name_facts hk).2.1 (Gateway.legacy_name_facts hk).2.2
+
+/-- **Why the encoder matters.**  With `quote_plus` in the plain branch (the code before the repair) the
+Pushgateway's path unescaping reads the job `a b` as `a+b`: M exhibits the defect when the flag is flipped. -/
+theorem quote_plus_space_read_as_plus_by_go :
+    escapeGroupingKeyWith true ['j', 'o', 'b'] ['a', ' ', 'b'] = (['j', 'o', 'b'], ['a', '+', 'b']) ∧
+    decodePairWith false ['j', 'o', 'b'] (escapeGroupingKeyWith true ['j', 'o', 'b'] ['a', ' ', 'b']).2
+      = some (['j', 'o', 'b'], ['a', '+', 'b']) ∧
+    decodePairWith false ['j', 'o', 'b'] (escapeGroupingKeyWith false ['j', 'o', 'b'] ['a', ' ', 'b']).2
+      = some (['j', 'o', 'b'], ['a', ' ', 'b']) := by
+  decide +kernel
 
 /-! ### `sorted(grouping_key.items())` -/
 
@@ -84,38 +113,73 @@ theorem buildUrl_eq (g job : Str) (gk : List (Str × Str)) :
     buildUrl g job gk = gatewayBase g ++ ['/', 'm', 'e', 't', 'r', 'i', 'c', 's', '/'] ++ buildPath job gk :=
   Gateway.buildUrl_eq g job gk
 
-/-- **Lossless.** For every job and every grouping key with legacy label names — values empty, with `/`, `+`,
-`%`, `?`, `#`, spaces, line breaks, non-ASCII, anything — the path decodes, by the Pushgateway's rules, to the
-job followed by the labels in sorted order. -/
-theorem path_decodes (job : Str) (gk : List (Str × Str)) (h : LegacyNames gk) :
-    decodePath (buildPath job gk) = some ((['j', 'o', 'b'], job) :: sortByKey gk) := by
-  have hs : orderedItems gk = sortByKey gk := by
-    unfold orderedItems
-    rw [if_pos (by decide : sortsGroupingKey = true)]
+private theorem ordered_eq (gk : List (Str × Str)) : orderedItems gk = sortByKey gk := by
+  unfold orderedItems
+  rw [if_pos (by decide : sortsGroupingKey = true)]
+
+private theorem path_decodes_with (p : Bool) (hqp : spaceAsPlus = true → p = true) (job : Str)
+    (gk : List (Str × Str)) (h : LegacyNames gk) :
+    decodePathWith p (buildPath job gk) = some ((['j', 'o', 'b'], job) :: sortByKey gk) := by
   have hj : jobLit = ['j', 'o', 'b'] := by decide
   unfold buildPath
-  rw [hs, Gateway.decodePath_join _ _ (names_ok job gk h), hj]
+  rw [ordered_eq, Gateway.decodePath_join p hqp _ _ (names_ok job gk h), hj]
 
-/-- the same, read off the full URL for any gateway spelling -/
-theorem url_decodes (g job : Str) (gk : List (Str × Str)) (h : LegacyNames gk) :
-    decodeUrl (gatewayBase g) (buildUrl g job gk) = some ((['j', 'o', 'b'], job) :: sortByKey gk) := by
+/-- **Lossless under the Pushgateway's path unescaping (`+` literal).** For every job and every grouping key
+with legacy label names — values empty, with `/`, `+`, `%`, `?`, `#`, spaces, line breaks, non-ASCII, anything —
+the path decodes to the job followed by the labels in sorted order.  Depends on `spaceAsPlus = false`: it stops
+checking if the plain branch goes back to `quote_plus`. -/
+theorem path_decodes_go (job : Str) (gk : List (Str × Str)) (h : LegacyNames gk) :
+    decodePathGo (buildPath job gk) = some ((['j', 'o', 'b'], job) :: sortByKey gk) :=
+  path_decodes_with false (by decide) job gk h
+
+/-- **Lossless under form decoding (`+` → space)** as well -/
+theorem path_decodes (job : Str) (gk : List (Str × Str)) (h : LegacyNames gk) :
+    decodePath (buildPath job gk) = some ((['j', 'o', 'b'], job) :: sortByKey gk) :=
+  path_decodes_with true (fun _ => rfl) job gk h
+
+private theorem url_decodes_with (p : Bool) (hqp : spaceAsPlus = true → p = true) (g job : Str)
+    (gk : List (Str × Str)) (h : LegacyNames gk) :
+    decodeUrlWith p (gatewayBase g) (buildUrl g job gk) = some ((['j', 'o', 'b'], job) :: sortByKey gk) := by
   rw [Gateway.buildUrl_eq]
-  unfold decodeUrl
+  unfold decodeUrlWith
   rw [if_pos (by simp)]
   simp only [List.drop_left]
-  exact path_decodes job gk h
+  exact path_decodes_with p hqp job gk h
 
-/-- **Distinct inputs give distinct URLs**: equal URLs (same gateway) force equal jobs and equal grouping keys
-(as dicts: the item lists are permutations of each other and sort to the same list). -/
-theorem url_injective (g job₁ job₂ : Str) (gk₁ gk₂ : List (Str × Str)) (h₁ : LegacyNames gk₁) (h₂ : LegacyNames gk₂)
+/-- the same, read off the full URL for any gateway spelling — Pushgateway reading -/
+theorem url_decodes_go (g job : Str) (gk : List (Str × Str)) (h : LegacyNames gk) :
+    decodeUrlGo (gatewayBase g) (buildUrl g job gk) = some ((['j', 'o', 'b'], job) :: sortByKey gk) :=
+  url_decodes_with false (by decide) g job gk h
+
+/-- … and form-decoding reading -/
+theorem url_decodes (g job : Str) (gk : List (Str × Str)) (h : LegacyNames gk) :
+    decodeUrl (gatewayBase g) (buildUrl g job gk) = some ((['j', 'o', 'b'], job) :: sortByKey gk) :=
+  url_decodes_with true (fun _ => rfl) g job gk h
+
+private theorem injective_of_decodes {g job₁ job₂ : Str} {gk₁ gk₂ : List (Str × Str)}
+    {dec : Str → Str → Option (List (Str × Str))}
+    (e1 : dec (gatewayBase g) (buildUrl g job₁ gk₁) = some ((['j', 'o', 'b'], job₁) :: sortByKey gk₁))
+    (e2 : dec (gatewayBase g) (buildUrl g job₂ gk₂) = some ((['j', 'o', 'b'], job₂) :: sortByKey gk₂))
     (heq : buildUrl g job₁ gk₁ = buildUrl g job₂ gk₂) :
     job₁ = job₂ ∧ sortByKey gk₁ = sortByKey gk₂ ∧ gk₁.Perm gk₂ := by
-  have e1 := url_decodes g job₁ gk₁ h₁
-  have e2 := url_decodes g job₂ gk₂ h₂
   rw [heq, e2] at e1
   simp only [Option.some.injEq, List.cons.injEq, Prod.mk.injEq, true_and] at e1
   refine ⟨e1.1.symm, e1.2.symm, ?_⟩
   exact (sortByKey_perm gk₁).symm.trans (e1.2 ▸ sortByKey_perm gk₂)
+
+/-- **Distinct inputs give distinct URLs** (derived through the Pushgateway reading): equal URLs (same gateway)
+force equal jobs and equal grouping keys (as dicts: the item lists are permutations of each other and sort to
+the same list). -/
+theorem url_injective_go (g job₁ job₂ : Str) (gk₁ gk₂ : List (Str × Str)) (h₁ : LegacyNames gk₁) (h₂ : LegacyNames gk₂)
+    (heq : buildUrl g job₁ gk₁ = buildUrl g job₂ gk₂) :
+    job₁ = job₂ ∧ sortByKey gk₁ = sortByKey gk₂ ∧ gk₁.Perm gk₂ :=
+  injective_of_decodes (dec := decodeUrlGo) (url_decodes_go g job₁ gk₁ h₁) (url_decodes_go g job₂ gk₂ h₂) heq
+
+/-- the same conclusion derived through the form-decoding reading (holds for either encoder) -/
+theorem url_injective (g job₁ job₂ : Str) (gk₁ gk₂ : List (Str × Str)) (h₁ : LegacyNames gk₁) (h₂ : LegacyNames gk₂)
+    (heq : buildUrl g job₁ gk₁ = buildUrl g job₂ gk₂) :
+    job₁ = job₂ ∧ sortByKey gk₁ = sortByKey gk₂ ∧ gk₁.Perm gk₂ :=
+  injective_of_decodes (dec := decodeUrl) (url_decodes g job₁ gk₁ h₁) (url_decodes g job₂ gk₂ h₂) heq
 
 /-! ### method, body, headers, time-out -/
 
@@ -210,6 +274,7 @@ theorem path_prefix_kept (x : Str) :
 /-- A label name containing `/` (outside the quantifier: not a legacy label name) is written unescaped and the
 path no longer decodes to the input — the model does not hide this. -/
 theorem name_with_slash_outside_quantifier :
+    decodePathGo (buildPath ['j'] [(['a', '/', 'b'], ['v'])]) ≠ some [(['j', 'o', 'b'], ['j']), (['a', '/', 'b'], ['v'])] ∧
     decodePath (buildPath ['j'] [(['a', '/', 'b'], ['v'])]) ≠ some [(['j', 'o', 'b'], ['j']), (['a', '/', 'b'], ['v'])] := by
   decide +kernel
 
@@ -222,10 +287,15 @@ example : needsPrefix "HTTP://h".toList = false := by decide +kernel
 -- the scheme-confusing shape excluded by `gateway_spelling`: a host literally called `http`
 example : needsPrefix "http:9091".toList = false := by decide +kernel
 example : buildUrl "localhost:9091/".toList "a/b".toList [("l".toList, "x y+%".toList), ("_a9".toList, [])]
-    = "http://localhost:9091/metrics/job@base64/YS9i/_a9@base64/=/l/x+y%2B%25".toList := by decide +kernel
-example : decodePath "job@base64/YS9i/_a9@base64/=/l/x+y%2B%25".toList
+    = "http://localhost:9091/metrics/job@base64/YS9i/_a9@base64/=/l/x%20y%2B%25".toList := by decide +kernel
+example : decodePathGo "job@base64/YS9i/_a9@base64/=/l/x%20y%2B%25".toList
     = some [("job".toList, "a/b".toList), ("_a9".toList, []), ("l".toList, "x y+%".toList)] := by decide +kernel
-example : buildUrl "https://h/p//".toList "é ?#\n".toList [] = "https://h/p/metrics/job/%C3%A9+%3F%23%0A".toList := by
+example : decodePath "job@base64/YS9i/_a9@base64/=/l/x%20y%2B%25".toList
+    = some [("job".toList, "a/b".toList), ("_a9".toList, []), ("l".toList, "x y+%".toList)] := by decide +kernel
+-- the two readings differ exactly on a raw `+`
+example : decodePathGo "job/a+b".toList = some [("job".toList, "a+b".toList)] := by decide +kernel
+example : decodePath "job/a+b".toList = some [("job".toList, "a b".toList)] := by decide +kernel
+example : buildUrl "https://h/p//".toList "é ?#\n".toList [] = "https://h/p/metrics/job/%C3%A9%20%3F%23%0A".toList := by
   decide +kernel
 example : b64encode [0xfb, 0xff, 0xfe] = "-__-".toList := by decide +kernel
 example : (deleteFromGateway "h".toList "j".toList (some 1) none [] (30 : Nat)).data = none := by decide +kernel
